@@ -117,6 +117,14 @@ def build(prop, tier, seed, L, main, can, obls, viol, und, reported, known_hits,
             "stubs_applied": stubs,
             "rewritten_loops": [json.loads(x) for x in rewritten],
             "primitive_models_used": prims,
+            "proved_for_every_shape": {
+                "what": "front end G (qv/gen.py): the real function executed on tensors of symbolic shape; size "
+                        "comparisons fork the run; equal tensor-algebra normal forms hold for all sizes and values",
+                "cases": sorted({c for r in main for c, _n in r.get("generic_done", [])}),
+                "paths": sum(n for r in main for _c, n in r.get("generic_done", [])),
+                "outside_the_fragment_(per-shape_proof_only)": sorted({"%s: %s" % (c, w) for r in main for c, w in r.get("generic_skipped", [])}),
+                "primitive_models_used": {k: sum(r.get("gprims", {}).get(k, 0) for r in main) for k in sorted({k for r in main for k in r.get("gprims", {})})},
+            },
             "line_coverage_of_repository_functions_entered": _line_coverage(main),
             "side_conditions_proved_by_z3": sum(len(r["side"]) for r in main),
             "generic_position_assumptions": sorted({g for r in main for g in r["generic"]})[:20],
